@@ -28,17 +28,17 @@ func (ex *Exec) ctxAdvance(st *State) {
 	par := ex.ctxParent(st)
 	ex.assume("(forall ((c!c Int)) (! (=> (select " + old + " c!c) (select " + nd + " c!c)) :pattern ((select " + nd + " c!c))))")
 	ex.assume("(forall ((c!c Int)) (! (=> (select " + nd + " (select " + par + " c!c)) (select " + nd + " c!c)) :pattern ((select " + nd + " c!c))))")
-	st.H["X|ctx.done"] = nd
+	ex.setH(st, "X|ctx.done", nd)
 }
 
 func (ex *Exec) newCtx(st *State, parent Val, tagName string) Val {
 	ref := ex.alloc(st)
 	tag := num(int64(ex.w.typeIDByName(tagName)))
 	par := ex.ctxParent(st)
-	st.H["X|ctx.parent"] = ex.name("ctxpar", sto(par, ref, parent.L[1]), arrSort(sInt, sInt))
+	ex.setH(st, "X|ctx.parent", ex.name("ctxpar", sto(par, ref, parent.L[1]), arrSort(sInt, sInt)))
 	done := ex.ctxDone(st)
 	// a fresh child is done iff its parent already is (it may become done at any later point)
-	st.H["X|ctx.done"] = ex.name("ctxdone", sto(done, ref, sel(done, parent.L[1])), arrSort(sInt, sBool))
+	ex.setH(st, "X|ctx.done", ex.name("ctxdone", sto(done, ref, sel(done, parent.L[1])), arrSort(sInt, sBool)))
 	return Val{L: []string{tag, ref}}
 }
 
@@ -53,7 +53,7 @@ func init() {
 			// remember which context a cancel function cancels
 			ex.registerKey("X|ctx.cancels", arrSort(sInt, sInt))
 			h := ex.heapGet(c.st, "X|ctx.cancels", arrSort(sInt, sInt))
-			c.st.H["X|ctx.cancels"] = ex.name("cancels", sto(h, cancel.L[0], child.L[1]), arrSort(sInt, sInt))
+			ex.setH(c.st, "X|ctx.cancels", ex.name("cancels", sto(h, cancel.L[0], child.L[1]), arrSort(sInt, sInt)))
 			_ = ctxT
 			return Val{L: []string{child.L[0], child.L[1], cancel.L[0]}}
 		}
